@@ -50,7 +50,10 @@ def run(ctx):
     rule_rbk(ctx, F)
     rule_drop(ctx, F)
     rule_ver(ctx, F)
+    rule_get(ctx, F)
     rule_shared(ctx, F)
+    import c10
+    c10.rule_walk(ctx, F)   # a walk enumerates the reader's version: it descends through every non-cut node
 
 
 def _version_args(b, t):
@@ -489,6 +492,16 @@ def rule_drop(ctx, F):
         st = [t for _, t in ob.calls() if re.search(r"Atomic(Bool|::<bool>)::store$", t["fn"] or "")]
         ok = any(const_value(ob.term_of_operand(t["args"][1])) == 1 and "dirty" in show(deep_strip(ob.term_of_operand(t["args"][0]))) for t in st)
         ctx.ob(R, ob, "open marks the writer dirty", ok, "WriteZone::open must set dirty before handing out a WriteNode")
+        # ... whenever it hands out a node, whatever else the caller asked for (a diff or not)
+        from rulelib import outcome_facts
+        for sb, t in [(bb, t) for bb, t in ob.calls() if re.search(r"Atomic(Bool|::<bool>)::store$", t["fn"] or "")
+                      and "dirty" in show(deep_strip(ob.term_of_operand(t["args"][0])))]:
+            cond = [show(deep_strip(tm))[:90] for tm, o in outcome_facts(ob, sb, F)
+                    if not re.match(r"^\(?&?\*?\(?(Try>::branch\()?(write::)?WriteNode::new_apex\(", show(deep_strip(tm)).lstrip("&*("))]
+            ctx.ob(R, ob, "open marks the writer dirty for every node it hands out", not cond,
+                   "WriteZone::open sets dirty only under the further condition(s) %s: a writer opened otherwise (no diff "
+                   "collection, say) and dropped without commit is not rolled back, and what it wrote surfaces with the next "
+                   "commit" % cond[:2], ob.where(sb))
     pb = F.one_body(r"write::WriteZone::publish_new_zone_version$")
     if pb is not None:
         st = [t for _, t in pb.calls() if re.search(r"Atomic(Bool|::<bool>)::store$", t["fn"] or "")]
@@ -589,6 +602,36 @@ def rule_ver(ctx, F):
                     rev = True
         ctx.ob(R, gb[0], "newest entry with entry.version <= reader version", le and rev,
                "Versioned::get must scan from the newest entry and accept the first whose version is <= the requested one")
+
+
+def rule_get(ctx, F):
+    """(C09.ver) Versioned::get answers with the newest entry that is not newer than the reader's version -- whichever
+    entry that is: the comparison with the reader's version is made for every entry, inside a search over the whole
+    vector (the closure of an iterator adaptor, or the body of a loop).  A lookup that only looks at the last one or two
+    entries is right for a reader at most one version behind and wrong for every reader held longer."""
+    from mirlib import closures_created_in
+    from rulelib import cyclic_blocks
+    R = "C09.ver"
+    b = F.body("zonetree::in_memory::versioned::Versioned::<T>::get")
+    if not ctx.anchor(R, "Versioned::get", b):
+        return
+    CMP = r"PartialOrd(<.*>)?::(le|lt|ge|gt)$"
+    inside, outside = [], []
+    cyc = cyclic_blocks(b)
+    for bb, t in b.calls():
+        if re.search(CMP, t["fn"] or ""):
+            (inside if bb in cyc else outside).append(("loop body" if bb in cyc else "straight-line code", bb))
+    for bi, cb, ops in closures_created_in(F, b):
+        # the closure has to be handed to a searching adaptor
+        handed = [t for bb, t in b.calls() if re.search(r"Iterator::(find_map|find|rfind|filter|filter_map|position|rposition|take_while|"
+                                                        r"skip_while|any|all|map_while|fold|try_fold|last)$", t["fn"] or "")]
+        for bb, t in cb.calls():
+            if re.search(CMP, t["fn"] or ""):
+                (inside if handed else outside).append(("closure of an iterator adaptor" if handed else "a closure", bi))
+    ctx.ob(R, b, "the reader's version is compared with every entry", bool(inside) and not outside,
+           "Versioned::get compares an entry's version with the reader's %s (%d comparison(s) in a search over all entries): a "
+           "reader held across two or more commits that touched the value is served a newer entry than its version allows"
+           % ("in " + ", ".join(sorted({w for w, _ in outside})) if outside else "nowhere", len(inside)), b.where())
 
 
 def run_thorough(ctx):
